@@ -5,6 +5,11 @@
    Sequential events are one abstract step each:
      reset{n}  setExpire{i,s}  acquire{i,ok,err}  release{i,ok,err}  advance{d}
      fault{mode}  obs{held,h,ttl}
+   The population of instances (LockPop.tla; driver zz_verif_c19_pop_test.go):
+     census{n,ids,known}  n further RedisLock instances were created in the process and brought
+                          ids identities no instance had before (known = FALSE: not readable)
+     create{i,ord}        instance i of the trace is the ord-th instance created
+     same{i,j,same}       white-box: do instances i and j carry the same identity
    Concurrent calls are logged as callStart{c,op,i,d} before the library (or FastForward)
    is invoked and callEnd{c,ok,err} after it returned; the atomic step of call c (the run
    of the Lua script inside the store, or the clock jump) is the silent action Lin(c),
@@ -14,18 +19,18 @@
    obs is a white-box observation of the key between calls: whether it exists, which
    instance's id it carries (h = -2: the value is no instance's id - then only existence and
    ttl are compared) and its remaining ttl in ms.                                         *)
-EXTENDS RedisLock, TraceKit
+EXTENDS RedisLock, LockPop, TraceKit
 
 VARIABLES
   l,      \* cursor into Trace
   pend,   \* call id |-> [op, i, d, done, ok, err] for calls that started and have not returned
   store   \* last fault mode set by the harness ("up", "err", "closed"); informative only:
           \* an error answer is legal at any time (breaker, dead pooled connection, ...)
-tvars == <<now, holder, expiresAt, secs, lease, l, pend, store>>
+tvars == <<now, holder, expiresAt, secs, lease, l, pend, store, made, idents, born>>
 
 E == Trace[l]
 IsEvent(e) == l <= Len(Trace) /\ E.e = e /\ l' = l + 1
-Quiet == UNCHANGED <<pend, store>>
+Quiet == UNCHANGED <<pend, store, pvars>>
 
 TReset ==
   /\ IsEvent("reset")
@@ -33,12 +38,13 @@ TReset ==
   /\ secs' = [i \in 0..(E.n - 1) |-> 0]
   /\ lease' = [i \in 0..(E.n - 1) |-> 0]
   /\ pend' = <<>> /\ store' = "up"
+  /\ PopReset(0..(E.n - 1))
 
 TSetExpire == IsEvent("setExpire") /\ SetExpire(E.i, E.s) /\ Quiet
 TAcquire   == IsEvent("acquire")   /\ Acquire(E.i, E.ok, E.err) /\ Quiet
 TRelease   == IsEvent("release")   /\ Release(E.i, E.ok, E.err) /\ Quiet
 TAdvance   == IsEvent("advance")   /\ Advance(E.d) /\ Quiet
-TFault     == IsEvent("fault")     /\ store' = E.mode /\ UNCHANGED <<lvars, pend>>
+TFault     == IsEvent("fault")     /\ store' = E.mode /\ UNCHANGED <<lvars, pend, pvars>>
 
 TObs ==
   /\ IsEvent("obs")
@@ -46,6 +52,12 @@ TObs ==
   /\ E.held => /\ E.h \in {holder, -2}
                /\ E.ttl = expiresAt - now
   /\ UNCHANGED lvars /\ Quiet
+
+\* ---- the population of instances (LockPop.tla): creation census, which created instance a
+\* numbered instance of the trace is, white-box comparison of two instances' identities
+TCensus == IsEvent("census") /\ Census(E.n, E.ids, E.known) /\ UNCHANGED <<lvars, pend, store>>
+TCreate == IsEvent("create") /\ Bind(E.i, E.ord) /\ UNCHANGED <<lvars, pend, store>>
+TSame   == IsEvent("same")   /\ SameIdent(E.i, E.j, E.same) /\ UNCHANGED <<lvars, pend, store>>
 
 \* ---- concurrent calls
 Window == 32    \* a call returns within this many log lines of any point at which it is pending
@@ -60,7 +72,7 @@ TCallStart ==
   /\ pend' = [c \in DOMAIN pend \cup {E.c} |->
                 IF c = E.c THEN [op |-> E.op, i |-> E.i, d |-> E.d, done |-> FALSE, ok |-> FALSE, err |-> FALSE]
                 ELSE pend[c]]
-  /\ UNCHANGED <<lvars, store>>
+  /\ UNCHANGED <<lvars, store, pvars>>
 
 Do(p, ok, err) ==
   CASE p.op = "acquire" -> Acquire(p.i, ok, err)
@@ -75,7 +87,7 @@ Lin(c) ==
          /\ j # 0 => ok = Trace[j].ok /\ err = Trace[j].err
          /\ Do(pend[c], ok, err)
          /\ pend' = [pend EXCEPT ![c].done = TRUE, ![c].ok = ok, ![c].err = err]
-  /\ UNCHANGED <<l, store>>
+  /\ UNCHANGED <<l, store, pvars>>
 
 (* Search reduction (sound: it only removes redundant orders).
    1. Lin steps commute with callStart and fault events, which do not touch the lock: while
@@ -95,13 +107,14 @@ TCallEnd ==
   /\ E.c \in DOMAIN pend
   /\ pend[E.c].done /\ pend[E.c].ok = E.ok /\ pend[E.c].err = E.err
   /\ pend' = [c \in DOMAIN pend \ {E.c} |-> pend[c]]
-  /\ UNCHANGED <<lvars, store>>
+  /\ UNCHANGED <<lvars, store, pvars>>
 
-TInit == LInit({}) /\ l = 1 /\ pend = <<>> /\ store = "up"
+TInit == LInit({}) /\ l = 1 /\ pend = <<>> /\ store = "up" /\ PopInit({})
 TNext ==
   IF Passive THEN TCallStart \/ TFault
   ELSE IF Eager # {} THEN Lin(CHOOSE c \in Eager : \A d \in Eager : c <= d)
   ELSE \/ TReset \/ TSetExpire \/ TAcquire \/ TRelease \/ TAdvance \/ TObs \/ TCallEnd
+       \/ TCensus \/ TCreate \/ TSame
        \/ \E c \in DOMAIN pend : Lin(c)
 TSpec == TInit /\ [][TNext]_tvars
 
